@@ -41,7 +41,7 @@ ASSUMPTIONS = [
 ]
 BUDGET = {"quick": 50, "thorough": 450}
 NCASES = {"quick": 3000, "thorough": 60000}
-FLOORS = {"quick": {"case_held": 400, "nontrivial": 300, "two_mesh_held": 25, "curved_held": 40, "selftest_non_affine_world_ok": 3}, 'thorough': {'case_held': 12000, 'nontrivial': 8000, 'two_mesh_held': 700, 'curved_held': 800, 'selftest_non_affine_world_ok': 3, 'suite:apply_derivatives:held': 3000, 'suite:apply_derivatives:held_and_changed': 2000}}
+FLOORS = {"quick": {"case_held": 400, "nontrivial": 300, "two_mesh_held": 25, "curved_held": 40, "bydef_held": 60, "selftest_non_affine_world_ok": 3}, 'thorough': {'case_held': 12000, 'nontrivial': 8000, 'two_mesh_held': 700, 'curved_held': 800, 'bydef_held': 1000, 'selftest_non_affine_world_ok': 3, 'suite:apply_derivatives:held': 3000, 'suite:apply_derivatives:held_and_changed': 2000}}
 COVER_FLOORS = {"quick": {"outer": ["grad", "div", "curl", "nabla_grad", "nabla_div", "dx"]}, "thorough": {"outer": ["grad", "div", "curl", "nabla_grad", "nabla_div", "dx"]}}
 CELLS = [("interval", 1), ("interval", 2), ("triangle", 2), ("triangle", 2), ("triangle", 3), ("tetrahedron", 3), ("tetrahedron", 3)]
 DERIV = {"Grad", "Div", "Curl", "NablaGrad", "NablaDiv", "ReferenceGrad", "ReferenceDiv", "ReferenceCurl"}
@@ -237,6 +237,91 @@ def once(ctx):
         ctx.count("selftest_non_affine_world_ok")
 
 
+def by_definition(ctx, rng):
+    """One derivative operator applied through the public function to an operand that exists as an expression: the
+    expected value is the interpreter's own application of the operator to the operand (S_apply: jets of the operand), so
+    whatever the constructor folds away when the node is built (grad of a constant, of the coordinate field, ...) is judged
+    too.  Bare terminals are the favourite operands, on ordinary and immersed cells."""
+    from ..seval import S_apply
+    from ..seval import Result as _R  # noqa: F401
+
+    cell, gdim = rng.choice(CELLS)
+    cplx = rng.random() < 0.2
+    U = Universe(rng, cell, gdim, "cell", cplx)
+    g = gdim
+    G = Gen(U, rng, cplx=cplx, deriv=0, cond=False, math=rng.random() < 0.5, geom=rng.random() < 0.5)
+    names = sorted(U.spaces)
+    r = rng.random()
+    try:
+        if r < 0.3:
+            T, what = U.x, "SpatialCoordinate"
+        elif r < 0.55:
+            T = U.coef(rng.choice(names), rng.randrange(2))
+            what = "Coefficient"
+        elif r < 0.65:
+            T = U.const(rng.choice([(), (g,), (g, g)]), 0)
+            what = "Constant"
+        elif r < 0.75:
+            T = rng.choice([ufl.Jacobian, ufl.JacobianInverse, ufl.JacobianDeterminant, ufl.CellVolume, ufl.FacetNormal if False else ufl.CellVolume])(U.mesh)
+            what = type(T).__name__
+        else:
+            T = G.expr(rng.choice([(), (g,), (g, g), (2,)]), rng.choice([1, 2]))
+            what = "expression"
+        sh = tuple(T.ufl_shape)
+        cands = ["grad", "nabla_grad", "dx"]
+        if len(sh) >= 1 and sh[-1] == g:
+            cands.append("div")
+        if len(sh) >= 1 and sh[0] == g:
+            cands.append("nabla_div")
+        if (g == 3 and sh == (3,)) or (g == 2 and sh in ((), (2,))):
+            cands.append("curl")
+        if len(sh) >= 3:
+            cands = ["dx"]
+        op = rng.choice(cands)
+        if op == "dx":
+            k = rng.randrange(g)
+            e = T.dx(k)
+        else:
+            e = getattr(ufl, op)(T)
+        out = expand_derivatives(e) if rng.random() < 0.5 else apply_derivatives(apply_algebra_lowering(e))
+    except Exception as ex:
+        ctx.count("build_rejected")
+        ctx.covered("build_rejected_with", type(ex).__name__)
+        return
+    worlds = oracle.worlds_for(rng, cell, gdim, "cell", cplx, n=3)
+    manifold = gdim > E.TD[cell]
+
+    def fin(w, B):
+        if op == "dx":
+            rr = S_apply("grad", [T], w, B)
+            rr.arr = rr.arr[..., k] if True else rr.arr
+            rr.rank -= 1
+            return rr
+        return S_apply(op, [T], w, B)
+
+    def fout(w, B):
+        return oracle.S(out, w, B)
+
+    vs = [oracle.compare_once(fin, fout, w) for w in worlds]
+    from ..passcheck import count_verdicts
+
+    count_verdicts(ctx, vs, "bydef_")
+    kinds = [v.kind for v in vs]
+    if any(kd in ("input-structure", "input-ambiguous") for kd in kinds):
+        ctx.count("bydef_skipped")
+        return
+    verdict = oracle.decide(vs)
+    ctx.count("bydef_" + verdict)
+    if verdict == "held":
+        ctx.covered("bydef_held", f"{op}({what})" + ("/manifold" if manifold else ""))
+        ctx.add_distinct(("by-definition", op, what, cell, gdim, skeleton(T, 1)))
+    elif verdict == "violated":
+        bad = next(v for v in vs if v.kind in ("disagree", "output-ambiguous"))
+        ctx.violation(f"C03/by-definition/{op}({what})" + ("/manifold" if manifold else ""),
+                      f"{op} of {what} expands to a value that is not the derivative of the operand ({bad.kind}, rel. err {bad.err}, {bad.why})",
+                      {"operand": str(T)[:600], "built": str(e)[:600], "expanded": str(out)[:800], "world": worlds[0].describe()})
+
+
 def curved(ctx, rng):
     """Non-affine cells (P2 coordinate element): fields are polynomials in the reference coordinates, hence not polynomials
     in x; Jacobian, its inverse and determinant vary over the cell.  Nothing that is only true on affine cells may be used."""
@@ -280,6 +365,8 @@ def case(ctx, i, rng):
         return two_meshes(ctx, rng)
     if r < 0.27:
         return curved(ctx, rng)
+    if r < 0.40:
+        return by_definition(ctx, rng)
     cell, gdim = rng.choice(CELLS)
     cplx = rng.random() < 0.25
     U = Universe(rng, cell, gdim, "cell", cplx)
